@@ -65,10 +65,13 @@ def run_sections(mod, chk, repo, tier, strict, fname='run'):
             run_sections(mod, chk, repo, tier, strict, fname=stmt.value.func.id)
             continue
         code = compile(ast.fix_missing_locations(ast.Module(body=[stmt], type_ignores=[])), mod.__file__, 'exec')
+        assigned = {n.id for n in ast.walk(stmt) if isinstance(n, ast.Name) and isinstance(n.ctx, ast.Store)} - {'chk', 'repo', 'tier'}
         try:
             exec(code, ns)
         except AnalysisError as e:
             failed = True
+            for nm in assigned:
+                ns.pop(nm, None)        # what this statement was to define must not be read from an earlier section
             cl = ids[0] if ids else last_clause
             chk.undecided(cl, 'applicability', f'{mod.__name__.rsplit(".", 1)[-1]}:{stmt.lineno}', 'rule applicable to this code',
                           f'not decided: {e}', '')
@@ -76,6 +79,8 @@ def run_sections(mod, chk, repo, tier, strict, fname='run'):
             if isinstance(e, NameError) and not failed:
                 raise
             failed = True
+            for nm in assigned:
+                ns.pop(nm, None)
             cl = ids[0] if ids else last_clause
             tb = traceback.extract_tb(e.__traceback__)[-1]
             chk.undecided(cl, 'applicability', f'{mod.__name__.rsplit(".", 1)[-1]}:{stmt.lineno}', 'rule applicable to this code',
